@@ -422,20 +422,33 @@ def C20(sc, tier, replay, t0):
     finally:
         D.finish = orig_finish
     merged, kw = captured["merged"], captured["kw"]
+    import zlib
+    # schema sets with hand-written files (v2) and, in both generations, a fixed eighth (thorough: half) of all
+    # schema sets for the clauses about entries the generator does not own
+    share = 2 if tier == "thorough" else 8
     subs, failures, samples, notes, capped = c12.run_part_a(
-        sc, tier, ["v2"], select=lambda e: bool(e.get("Files")), rots=[0, 1, 2, 3] if tier == "thorough" else [0, 1], universes=False)
+        sc, tier, ["v2", "root"], select=lambda e: bool(e.get("Files")) or zlib.crc32(e["ID"].encode()) % share == 0,
+        rots=[0, 1, 2, 3] if tier == "thorough" else [0, 1], universes=False)
     for name, sd in subs.items():
         if name.endswith("/compile") or name.endswith("/vet") or name.endswith("/deterministic"):
             continue
         sd = dict(sd)
         merged["sub"]["generator-" + name] = sd
+    kept = 0
     for f in failures:
+        item = (f.get("replay") or {}).get("item", "")
+        kind = f["sig"].split(" ")[1] if " " in f["sig"] else ""
+        # the sampled sets without hand-written files are here for the clauses about entries the generator does not
+        # own; whether the generator can handle them at all is C12's business (and C12's known findings)
+        if not ("Ct" in item or "custom" in item) and kind not in ("regenerate", "user-files", "package-root-layout"):
+            continue
         f = dict(f)
         f["sig"] = "generator " + f["sig"]
         f["replay"] = None
         merged["failures"].append(f)
-    merged["fail_count"] = merged.get("fail_count", 0) + len(failures)
-    kw["rule"] = kw["rule"] + "; plus, for every schema set of the C12 grammar that has hand-written custom typeref files (v2), the real generator run flat, again over its own output, and with the package-root layout: the files are located (no <Type>.gr.go generated beside them), left byte-identical, and the generated tree is reproduced exactly"
+        kept += 1
+    merged["fail_count"] = merged.get("fail_count", 0) + kept
+    kw["rule"] = kw["rule"] + "; plus, for every schema set of the C12 grammar that has hand-written custom typeref files (v2), the real generator run flat, again over its own output, and with the package-root layout: the files are located (no <Type>.gr.go generated beside them), left byte-identical, and the generated tree is reproduced exactly; and, for those sets plus a fixed share of all other sets in both generations, a generation into a directory already holding a non-empty user directory at the path of a generated file, a user file beside generated files and a user directory leaves all of them byte for byte untouched"
     return D.finish("C20", tier, "model_checking", merged, t0, **kw)
 
 
